@@ -222,7 +222,27 @@ def make_blank(case, url, cls):
     return b
 
 
+RX_QUERY_OK = re.compile(r"^(?:[A-Za-z0-9\-._~!$&'()*+,;=:@/?\[\]]|%[0-9A-Fa-f]{2})*$")
+
+
+def classify_query(qs):
+    """None when the query consists of URI characters and well-formed %XX; otherwise what is wrong with it."""
+    if RX_QUERY_OK.match(qs) and not qs.endswith("\n"):
+        return None
+    if "#" in qs:
+        return "raw '#'"
+    if any(c in qs for c in "\t\r\n"):
+        return "TAB/CR/LF"
+    if not qs.isascii():
+        return "non-ASCII character"
+    if re.search(r"%(?![0-9A-Fa-f]{2})", qs):
+        return "'%' not followed by two hex digits" if RX_QUERY_OK.match(re.sub(r"%", "", qs)) else "character outside the URI set"
+    return "character outside the URI set (space, control, one of \"<>\\^`{|})"
+
+
 def strip_default(scheme, host):
+    if host.endswith(":"):
+        host = host[:-1]           # an empty port is no port
     d = default_port(scheme)
     if d and host.endswith(":" + d) and not host.endswith("]"):
         return host[:-len(d) - 1]
@@ -233,7 +253,7 @@ def classify_scheme(case):
     s = case["scheme"]
     if s in ("http", "https"):
         return None
-    hasport = case["host"]["port"] is not None if case.get("host") is not None else True
+    hasport = bool(case["host"]["port"]) if case.get("host") is not None else True
     if not re.match(r"^[a-z]+$", s):
         return "blank:scheme-with-non-letter-not-recognised"
     if not hasport:
@@ -263,15 +283,27 @@ def oracle_url(case):
     else:
         exp_domain, exp_port = case["server"]
     dflt = default_port(scheme)
-    shown = exp_port if (exp_port is not None and exp_port != dflt) else None
+    if exp_port == "":
+        exp_port = None        # "Host: name:" — an empty port is no port (RFC 3986 3.2.3)
+        empty_port = True
+    else:
+        empty_port = False
+    # the default port is a NUMBER: ":080" is port 80
+    is_dflt = exp_port is not None and dflt is not None and exp_port.isdigit() and int(exp_port) == int(dflt)
+    shown = exp_port if (exp_port is not None and not is_dflt) else None
     exp_host_url = scheme + "://" + exp_domain + (":" + shown if shown else "")
     if host_url != exp_host_url:
+        if is_dflt and exp_port != dflt and host_url == scheme + "://" + exp_domain + ":" + exp_port:
+            return ("host_url:default-port-leading-zeros-not-elided",
+                    "host_url %r: port %r is the default port %s of %s and must be elided (expected %r)"
+                    % (host_url, exp_port, dflt, scheme, exp_host_url))
         return "host_url:default-port", "host_url %r, expected %r" % (host_url, exp_host_url)
     if domain != exp_domain:
         return "domain", "domain %r, expected %r" % (domain, exp_domain)
     if exp_port is not None or dflt is not None:
         if host_port != (exp_port if exp_port is not None else dflt):
-            return "host_port", "host_port %r, expected %r" % (host_port, exp_port if exp_port is not None else dflt)
+            return ("host_port:empty-port" if empty_port else "host_port",
+                    "host_port %r, expected %r" % (host_port, exp_port if exp_port is not None else dflt))
     # ---- the five URL forms: percent-encoded ASCII, mutually consistent
     bscript, bpath = script_t.encode(py_enc(enc)), path_t.encode(py_enc(enc))
     for name, got, pre, raw in (("path", path, "", bscript + bpath),
@@ -288,10 +320,27 @@ def oracle_url(case):
         return "url:structure", "path_qs %r is not path + ?query (%r, %r)" % (path_qs, path, qs)
     if url != path_url + ("?" + qs if qs else ""):
         return "url:structure", "url %r is not path_url + ?query (%r, %r)" % (url, path_url, qs)
-    if not url.isascii():
+    qclass = classify_query(qs)
+    if not url.isascii() and qclass is None:
         return "quote:not-percent-encoded-ascii", "url %r is not ASCII" % url
     if case.get("skip_blank"):
         return None
+    if qclass is not None:
+        # the statement quantifies over every query string; webob appends QUERY_STRING verbatim
+        try:
+            bq = make_blank(case, url, cls).query_string
+        except TypeError:
+            bq = Err("TypeError")
+        if "#" in qs:
+            if bq != qs:
+                return "url:query-hash-becomes-fragment", "QUERY_STRING %r: request.url is %r and Request.blank of it " \
+                    "gives %r (a raw '#' starts a fragment)" % (qs, url, bq)
+        elif any(c in qs for c in "\t\r\n"):
+            if bq != qs:
+                return "url:query-tab-cr-lf-lost", "QUERY_STRING %r: request.url is %r and Request.blank of it has " \
+                    "the query %r (urlsplit deletes TAB/CR/LF)" % (qs, url, bq)
+        return "url:query-not-percent-encoded-ascii", "QUERY_STRING %r is appended verbatim: request.url %r is not " \
+            "percent-encoded ASCII (%s)" % (qs, url, qclass)
     # ---- Request.blank(request.url)
     try:
         b = make_blank(case, url, cls)
@@ -502,13 +551,18 @@ SCHEMES_WSGI = ["http", "https"]
 SCHEMES_OTHER = ["ws", "wss", "ftp", "gopher", "svn+ssh", "h2c", "coap+tcp"]
 NAMES = ["example.com", "localhost", "EXAMPLE.com", "a", "127.0.0.1", "xn--bcher-kva.example", "a-b.c_d~e", "www.x.org."]
 V6 = ["::1", "2001:db8::8:800:200c:417a", "::", "::ffff:192.0.2.1", "FE80::1", "v1.fe80::a+en1"]
-PORTS = [None, "80", "443", "8080", "0", "080", "65535", "8", "4430", "800"]
+PORTS = [None, "80", "443", "8080", "0", "080", "65535", "8", "4430", "800", "", "0443", "00080"]
 PATH_ALPHA = ["/", ".", "%", "?", "#", ";", "a", "\xe9", " "]
 PATH_EXTRA = ["..", "%2F", "%2f", "+", ":", "@", "~", "€", "\U0001F600", "\\", "&", "=", "'", '"', "<", "[", "]",
               "\x00", "\x7f", "\n", "\t", "\r", "\xff", "\x80", "b", "Z", "0", "-", "_", "!", "$", "(", ")", "*", ",",
               "ı", "K", "//", "/./", "/../", "a/b", "{", "}", "|", "^", "`"]
-QUERIES = [None, "", "a=1", "a=1&b=2", "x=%C3%A9", "q=a+b", "a?b/c", "%", "=&;", "a=b=c", "'()*!$,", "~-._", "[]@:",
-           "a%zz", "?", "//", "a=\"<>\"", "{}|\\^`"]
+QUERIES = [None, "", "a=1", "a=1&b=2", "x=%C3%A9", "q=a+b", "a?b/c", "=&;", "a=b=c", "'()*!$,", "~-._", "[]@:", "?",
+           "//", "%41", "a=%2F%3f"]
+# query strings the statement quantifies over ("all query strings") on which the pinned code does not keep it:
+# every one of them is expected to be reported under a url:query-* finding key
+QUERIES_ODD = ["%", "a%zz", "a=\"<>\"", "{}|\\^`", "a#b", "#", "%zz#", "a b", " ", "a\tb", "a\nb", "\rb", "\xe9=1",
+               "a=\u20ac", "a\x00b", "\x7f"]
+PORTS_CLEAN = [None, "80", "443", "8080", "0", "65535", "8", "4430", "800"]
 POP_SHAPES = ["pos", "pos", "kw", "compiled", "none"]
 POP_PATTERNS = [None, None, None, "a", ".", r"\w+$", "^$", "[^/]+", "\xe9", "x", r"\.\.?$", "", "%"]
 REL_SEGS = [".", "..", "g", "%2e", "x=1", "a;p", "...", "g.", ".g", ";x", "\xe9"]
@@ -517,10 +571,11 @@ REL_ODD = ["", "?", "#", "?y", "#s", "g?", "g#", "g;", "//g", "//g/a/../b", "htt
            ".;x", "g/..;p", "/.;x?y", "..;x#s", "a/.;", "g;x=1/../y", "g/a;p"]
 
 
-def gen_host(rng, v6_ratio=0.35):
+def gen_host(rng, v6_ratio=0.35, ports=None):
+    ports = ports or PORTS
     if rng.random() < v6_ratio:
-        return {"kind": "v6", "name": rng.choice(V6), "port": rng.choice(PORTS)}
-    return {"kind": "name", "name": rng.choice(NAMES), "port": rng.choice(PORTS)}
+        return {"kind": "v6", "name": rng.choice(V6), "port": rng.choice(ports)}
+    return {"kind": "name", "name": rng.choice(NAMES), "port": rng.choice(ports)}
 
 
 def gen_text(rng, enc, maxlen=6, alpha=None):
@@ -553,13 +608,16 @@ def gen_paths(rng, enc, maxlen=6):
     return script, t[k:]
 
 
-def gen_case(rng, schemes=None, enc=None):
+def gen_case(rng, schemes=None, enc=None, clean=False, odd_queries=False):
+    """clean: only inputs on which no recorded finding applies (for the sequence oracle, whose keys are
+    prefixed); odd_queries: also the QUERIES_ODD stream."""
     enc = enc or rng.choice(["UTF-8", "UTF-8", "latin-1"])
     script, path = gen_paths(rng, enc)
-    host = gen_host(rng) if rng.random() < 0.85 else None
+    host = gen_host(rng, ports=PORTS_CLEAN if clean else None) if rng.random() < 0.85 else None
     case = {"scheme": rng.choice(schemes or SCHEMES_WSGI), "host": host,
-            "server": [rng.choice(NAMES), rng.choice([p for p in PORTS if p])],
-            "script": script, "path": path, "qs": rng.choice(QUERIES), "enc": enc}
+            "server": [rng.choice(NAMES), rng.choice([p for p in PORTS_CLEAN if p])],
+            "script": script, "path": path,
+            "qs": rng.choice(QUERIES_ODD) if odd_queries and rng.random() < 0.12 else rng.choice(QUERIES), "enc": enc}
     if enc == "UTF-8" and rng.random() < 0.2:
         case["enc_explicit"] = True
     x = rng.random()
@@ -1154,10 +1212,15 @@ def oracle_outside(case):
             if isinstance(v, Err):
                 return "outside:host-raises", "%s raises %r for Host %r" % (n, v, case["host"])
         h = case["host"]
-        if ":" in h and not h.endswith("]"):
+        if h.endswith(":") and ":" in h:
+            ok = obs["domain"] == h[:-1] and obs["host_port"] == default_port(case["scheme"])
+        elif ":" in h and not h.endswith("]"):
             ok = obs["domain"] + ":" + obs["host_port"] == h
         else:
             ok = obs["domain"] == h and obs["host_port"] == default_port(case["scheme"])
+        if h.endswith(":") and obs["domain"] == h[:-1] and obs["host_port"] == "":
+            return "host_port:empty-port", "Host %r: host_port is '' (an empty port is no port: expected %r)" % (
+                h, default_port(case["scheme"]))
         if not ok or not obs["host_url"].startswith(case["scheme"] + "://" + obs["domain"]) or obs["host"] != h:
             return "outside:host-incoherent", "Host %r: domain %r, host_port %r, host_url %r do not describe it" % (
                 h, obs["domain"], obs["host_port"], obs["host_url"])
@@ -1222,14 +1285,12 @@ def outside_cases(ctx, rng):
     for h in MAL_HOSTS:
         for scheme in ("http", "https"):
             out.append({"class": "host-malformed", "host": h, "scheme": scheme})
-    for q in OUT_QUERIES:
-        out.append({"class": "query-odd", "qs": q})
     for k in ("wsgi.url_scheme", "SERVER_NAME", "SERVER_PORT", "PATH_INFO", "SCRIPT_NAME", "QUERY_STRING"):
         out.append({"class": "missing-key", "key": k})
         out.append({"class": "missing-key", "key": k, "with_host": True})
     out.append({"class": "arg-type"})
     for _ in range(ctx.scale(300, 3000)):
-        c = gen_case(rng)
+        c = gen_case(rng, clean=True)
         t = gen_text(rng, c["enc"], 5)
         c["script"], c["path"] = rng.choice([("", t), (t, ""), (t, gen_text(rng, c["enc"], 3))])
         out.append({"class": "unrooted", "case": c})
@@ -1426,7 +1487,7 @@ def run(ctx):
         env = gen_env_for_corr(rng)
         cases.append((cenv(env), impl_urls(env), {"kind": "env", "environ": env}))
     bad = ctx.corr("urls", IMPORTS, "obs_urls", cases, in_type="environ")
-    _report_bad(ctx, "urls", bad, cases, None)
+    _report_bad(ctx, "urls", bad, cases, oracle_env_hostport)
 
     # set / get
     cases = []
@@ -1476,7 +1537,8 @@ def run(ctx):
         for k, (e, got) in enumerate(steps):
             cases.append((cenv(e), got, {"kind": "env", "environ": e, "from_history": hist, "step": k}))
     bad = ctx.corr("urls-history", IMPORTS, "obs_urls", cases, in_type="environ")
-    _report_bad(ctx, "urls-history", bad, cases, lambda c: oracle_history(c["from_history"]))
+    _report_bad(ctx, "urls-history", bad, cases,
+                lambda c: oracle_history(c["from_history"]) or oracle_env_hostport(c))
 
     corr_urljoin(ctx, ctx.sub_rng("corr-urljoin"))
 
@@ -1512,8 +1574,9 @@ def run(ctx):
         "SCRIPT_NAME+PATH_INFO is empty or starts with '/' (PEP 3333 / RFC 3875); texts are sequences of Unicode "
         "scalar values (no lone surrogates), code points < 256 for url_encoding latin-1",
         "Host is reg-name/IPv4 or a bracketed IP literal accepted by urllib (ipaddress / IPvFuture), optional port "
-        "is 1*DIGIT; without HTTP_HOST, SERVER_NAME has no colon",
-        "QUERY_STRING is what a server delivers: printable ASCII without '#'",
+        "is *DIGIT (an empty port is no port: C13_empty_port); without HTTP_HOST, SERVER_NAME has no colon",
+        "the round-trip THEOREM assumes QUERY_STRING is visible ASCII without '#'; the statement quantifies over all "
+        "query strings, so the oracle visits the others too: they are reported under the url:query-* finding keys",
         "wsgi.url_scheme is http or https (PEP 3333); other schemes are exercised and reported under their own keys",
         "the blank request inherits webob.url_encoding of the original (a URL does not carry its encoding)",
     ]
@@ -1523,6 +1586,20 @@ def run(ctx):
         "checked by the oracle only, against an RFC 3986 section 5.2 reference resolver)",
         "re.match(pattern, segment) in path_info_pop is an abstract predicate",
     ]
+
+
+def oracle_env_hostport(case):
+    """For a raw environ whose Host ends with ':' (empty port): host_port must be the scheme's default."""
+    from webob import Request
+    env = case["environ"]
+    h = env.get("HTTP_HOST")
+    if not h or not h.endswith(":") or h.endswith("]:") and False:
+        return None
+    got = catchv(lambda: Request(dict(env)).host_port)
+    want = "443" if env.get("wsgi.url_scheme") == "https" else "80"
+    if got != want:
+        return "host_port:empty-port", "Host %r: host_port %r, an empty port is no port: expected %r" % (h, got, want)
+    return None
 
 
 def oracle_blank_url(case):
@@ -1600,16 +1677,26 @@ def run_oracle(ctx):
                         n += 1
                         nt += 1
         for name in NAMES:
-            for port in PORTS[1:]:
+            for port in [p for p in PORTS if p]:       # SERVER_PORT is never empty (RFC 3875)
                 case = {"scheme": scheme, "host": None, "server": [name, port], "script": "", "path": "/", "qs": None,
                         "enc": "UTF-8"}
                 record(ctx, guarded(oracle_url)(case), case, "url-hosts")
                 n += 1
                 nt += 1
     ctx.oracle_count("url-hosts", n, nt)
+    # every query string of both streams on two fixed requests
+    n = 0
+    for qs in QUERIES + QUERIES_ODD:
+        for scheme, host in (("http", {"kind": "name", "name": "h", "port": None}),
+                             ("https", {"kind": "v6", "name": "::1", "port": "8443"})):
+            case = {"scheme": scheme, "host": host, "server": ["srv", "81"], "script": "/s", "path": "/p", "qs": qs,
+                    "enc": "UTF-8"}
+            record(ctx, guarded(oracle_url)(case), case, "url-queries")
+            n += 1
+    ctx.oracle_count("url-queries", n, n)
     n = nt = 0
     for _ in range(ctx.scale(15000, 250000)):
-        case = gen_case(rng, schemes=SCHEMES_WSGI * 6 + SCHEMES_OTHER)
+        case = gen_case(rng, schemes=SCHEMES_WSGI * 6 + SCHEMES_OTHER, odd_queries=True)
         record(ctx, guarded(oracle_url)(case), case, "url-random")
         n += 1
         nt += nontrivial_case(case)
@@ -1691,7 +1778,7 @@ def run_oracle(ctx):
 def gen_related_batch(rng):
     """A base case and variants that differ from it in one or two coordinates only (encoding, scheme, host,
     port, query, the SCRIPT_NAME/PATH_INFO split): inputs that a cache keyed on too little would confuse."""
-    base = gen_case(rng, schemes=SCHEMES_WSGI, enc="latin-1")      # latin-1 text is valid under both encodings
+    base = gen_case(rng, schemes=SCHEMES_WSGI, enc="latin-1", clean=True)   # latin-1 text is valid under both encodings
     base["script"] = base["script"] or ""
     batch = [base]
     for _ in range(7):
@@ -1703,9 +1790,9 @@ def gen_related_batch(rng):
             elif dim == "scheme":
                 c["scheme"] = rng.choice(["http", "https"])
             elif dim == "host":
-                c["host"] = gen_host(rng) if rng.random() < 0.8 else None
+                c["host"] = gen_host(rng, ports=PORTS_CLEAN) if rng.random() < 0.8 else None
             elif dim == "port" and c["host"] is not None:
-                c["host"]["port"] = rng.choice(PORTS)
+                c["host"]["port"] = rng.choice(PORTS_CLEAN)
             elif dim == "qs":
                 c["qs"] = rng.choice(QUERIES)
             elif dim == "server":
@@ -1785,7 +1872,7 @@ def replay(ctx, path):
         elif "batch" in case:
             res = guarded(oracle_orders)(case)
         elif "from_history" in case:
-            res = guarded(oracle_history)(case["from_history"])
+            res = guarded(oracle_history)(case["from_history"]) or guarded(oracle_env_hostport)(case)
         elif "ops" in case and "scheme" in case:
             res = guarded(oracle_pop)(case)
         elif "other" in case:
@@ -1796,6 +1883,8 @@ def replay(ctx, path):
             res = guarded(oracle_url)(case)
         elif case.get("kind") == "quote":
             res = oracle_quote_bytes(bytes.fromhex(case["bytes"]))
+        elif case.get("kind") == "env":
+            res = guarded(oracle_env_hostport)(case)
         elif case.get("kind") == "environ_from_url":
             res = guarded(oracle_blank_url)(case)
         else:
